@@ -16,10 +16,11 @@ import model as M
 from gen import H, O
 from vlib import run_driver_parallel, coq_eval, warm_config, trace_to_coq, unhex, cb
 import fsmodel as F
+import dyn as D
 from props.C14 import diff, snapmap
 
 # the case files of this check import the monitors: keep them compiled against the current generated constants
-COQ_TARGETS = ("theories/Replay.vo", "theories/Discipline.vo", "theories/FdBalance.vo", "proofs/MonitorProofs.vo")
+COQ_TARGETS = ("theories/Replay.vo", "theories/Discipline.vo", "theories/FdBalance.vo", "proofs/MonitorProofs.vo", "theories/Dyn.vo")
 
 RES = 16 | 2
 
@@ -105,6 +106,7 @@ def run(ck):
     nontrivial = set()
     samples = []
     cases = []
+    dcases = []
     fh_cases = []
     # invalid modes are refused before anything happens
     bad_mode_jobs = []
@@ -207,6 +209,12 @@ def run(ck):
                 if plain_chain_should_succeed(unhex(op["path"]), before):
                     ck.violation("C12: mkdir_all failed although every existing component of its path is a directory of the root's tree and "
                                  "the rest are plain names that do not exist", desc)
+            # tie T2d (with openat2 available: the re-open of the deepest existing directory goes through the procfs handle, whose
+            # model has fixed pid/tid names without it): every answer of the running kernel and the resulting tree
+            if not deny and res.get("trace") and rng.random() < (0.8 if thorough else 0.5):
+                dterm = D.case_term(job["tree"], res, procfd=warm_config(res["_warm"])["procfd"])
+                if dterm:
+                    dcases.append((len(dcases), dterm, desc, res))
             if rng.random() < (0.5 if thorough else 0.3) and res.get("trace"):
                 cfg = warm_config(res["_warm"])
                 prog, enc = M.op_program({"op": op, "rflags": job.get("rflags", 0)}, res, cfg, ps)
@@ -259,6 +267,8 @@ def run(ck):
                 ck.violation("T1: model and implementation disagree on mkdir_all",
                              {"job": J.describe({"op": job["op"]}), "deny": tag, "replay": rep, "real_outcome": res.get("res"),
                               "around": tr[max(0, at - 2):at + 2]}, False)
+    if not ck.proof_broken:
+        D.evaluate(ck, dcases, stats, "mkdir_all", coq_eval, "c12d")
     cov = {
         "evaluations": stats["ops"] + stats["races"],
         "distinct_nontrivial": len(nontrivial),
@@ -272,6 +282,7 @@ def run(ck):
         "racing_groups": stats["races"], "created_chain_length_histogram": stats["chain_len"],
         "traces_validated_against_impl": stats["t1_ok"], "t1_mismatches": stats["t1_bad"], "disagreements_checked": stats["t1_bad"],
     }
+    cov.update(D.coverage(stats))
     assumptions = ["mkdir_all('') is judged like mkdir_all('.') (there is nothing to create; both backends return the root)",
                    "races use the real scheduler (threads released by a barrier), not an exhaustive enumeration of interleavings",
                    "the handle oracle is the kernel's raw openat2(RESOLVE_IN_ROOT) of the same path in the resulting tree"]
